@@ -387,8 +387,77 @@ def rank1_exprs(n):
     return out
 
 
+def run_grow_case(case, ctx, bench):
+    """
+    The array's extent changes through ANOTHER handle while a long-lived handle (which has looked at shape, length
+    and a view before) stays in use: views and index expressions through the long-lived handle mean what NumPy
+    means on the data as it is now - the new elements are reachable, removed ones never yield anything.
+    """
+    nixio = bench.nixio
+    shape = tuple(case["shape"])
+    ax = case["axis"] % len(shape)
+    g = case["grow"]
+    base = np.arange(1, int(np.prod(shape)) + 1, dtype=np.int64).reshape(shape)
+    bench.serial = getattr(bench, "serial", 0) + 1
+    name = "grow%d" % bench.serial
+    A = bench.blk.create_data_array(name, "t", data=base)
+    A.shape, len(A), A.data_extent
+    try:
+        np.asarray(A.get_slice([0] * len(shape), list(shape), nixio.DataSliceMode.Index)[:])
+    except Exception:  # noqa
+        pass
+    extra_shape = tuple(g if i == ax else n for i, n in enumerate(shape))
+    extra = (-np.arange(1, int(np.prod(extra_shape)) + 1, dtype=np.int64)).reshape(extra_shape)
+    B = bench.blk.data_arrays[name]
+    B.append(extra, axis=ax)
+    full = np.concatenate([base, extra], axis=ax)
+    key = "C06/extent-changed-through-other-handle"
+    if tuple(A.shape) != full.shape or len(A) != full.shape[0]:
+        ctx.violation(key + "/shape-through-kept-handle", case, {"want": list(full.shape), "got": list(A.shape)})
+    # a window inside the new region, through the long-lived handle
+    starts = [0] * len(shape)
+    exts = list(full.shape)
+    starts[ax] = shape[ax] + case["off"] % g
+    exts[ax] = 1 + (case["len"] % (g - case["off"] % g))
+    want = full[tuple(slice(s_, s_ + x) for s_, x in zip(starts, exts))]
+    try:
+        v = A.get_slice(starts, exts, nixio.DataSliceMode.Index)
+        got = np.asarray(v[:]) if v.valid else None
+    except Exception as exc:  # noqa
+        got = "raised " + type(exc).__name__
+    if not isinstance(got, np.ndarray) or got.shape != want.shape or not np.array_equal(got, want):
+        ctx.violation(key + "/view-into-grown-region", case,
+                      {"window": [starts, exts], "want": want.ravel().tolist()[:6],
+                       "got": got.ravel().tolist()[:6] if isinstance(got, np.ndarray) else got})
+    try:
+        whole = np.asarray(A[:])
+        if whole.shape != full.shape or not np.array_equal(whole, full):
+            ctx.violation(key + "/read-through-kept-handle", case, {"want_shape": list(full.shape), "got_shape": list(whole.shape)})
+    except Exception as exc:  # noqa
+        ctx.violation(key + "/read-through-kept-handle", case, {"raised": type(exc).__name__})
+    # shrink back through the other handle: the same window lies beyond the extent now
+    B.data_extent = shape
+    try:
+        v = A.get_slice(starts, exts, nixio.DataSliceMode.Index)
+        leaked = np.asarray(v[:]) if v.valid else np.zeros(0)
+    except Exception:  # noqa
+        leaked = np.zeros(0)
+    if leaked.size:
+        ctx.violation(key + "/view-beyond-shrunk-extent-yields-data", case, {"got": leaked.ravel().tolist()[:6]})
+    if tuple(A.shape) != shape:
+        ctx.violation(key + "/shape-after-shrink", case, {"want": list(shape), "got": list(A.shape)})
+    del bench.blk.data_arrays[name]
+    ctx.case(case, True, ["part:extent-through-other-handle", "rank%d" % len(shape), "grow-axis:%d" % ax])
+
+
+def grow_case():
+    return st.fixed_dictionaries({"part": st.just("grow"), "shape": st.lists(st.integers(1, 4), min_size=1, max_size=3),
+                                  "axis": st.integers(0, 2), "grow": st.integers(1, 3), "off": st.integers(0, 2),
+                                  "len": st.integers(0, 2)})
+
+
 def shards(tier, seed):
-    specs = []
+    specs = [{"part": "grow", "n": 40 if tier == "quick" else 600, "seed": seed * 1000 + 900}]
     nmax = 4 if tier == "quick" else 5
     for n in range(0, nmax + 1):
         wins = [None] + [[[s, x]] for s in range(-1, n + 2) for x in range(0, n + 3)]
@@ -416,6 +485,8 @@ def run_shard(spec, ctx):
                             case["v"] = v
                         run_case(case, ctx, bench)
             ctx.exhaustive = True
+        elif spec["part"] == "grow":
+            gen.generate(grow_case(), spec["n"], spec["seed"], lambda c: run_grow_case(c, ctx, bench))
         else:
             gen.generate(random_case(), spec["n"], spec["seed"], lambda c: run_case(c, ctx, bench))
     finally:
@@ -425,6 +496,22 @@ def run_shard(spec, ctx):
 def replay(case, ctx):
     bench = Bench(ctx)
     try:
-        run_case(case, ctx, bench)
+        if case.get("part") == "grow":
+            run_grow_case(case, ctx, bench)
+        else:
+            run_case(case, ctx, bench)
     finally:
         bench.close()
+
+
+def valid(case):
+    """keeps the minimiser inside the input domain (only the 'grow' cases have arithmetic preconditions)"""
+    try:
+        if case.get("part") == "grow":
+            return (isinstance(case["shape"], list) and 1 <= len(case["shape"]) <= 3 and
+                    all(isinstance(n, int) and 1 <= n <= 4 for n in case["shape"]) and
+                    all(isinstance(case[k], int) for k in ("axis", "grow", "off", "len")) and
+                    1 <= case["grow"] <= 3 and 0 <= case["axis"] <= 2 and 0 <= case["off"] <= 2 and 0 <= case["len"] <= 2)
+        return isinstance(case.get("shape"), list) and "e" in case and "op" in case
+    except Exception:  # noqa
+        return False
